@@ -150,6 +150,29 @@ func hValue(r *fw.Rng) *gnmi.TypedValue {
 	return hScalar(r)
 }
 
+// hOverrideFor is a target-version-override extension that names the target the request itself addresses: an entry
+// without a value (a key alone on the wire decodes to a nil map value), an unknown type or version, or the target's own
+// model. The undirected hExtensions reaches "override for the addressed target of a well-formed request" too rarely for
+// the quick tier (seeded change s-C12-4: the nil check of Get's addTarget dropped while Set keeps its own).
+func hOverrideFor(r *fw.Rng, tg string) *gnmi_ext.Extension {
+	ov := &configapi.TargetVersionOverrides{Overrides: map[string]*configapi.TargetTypeVersion{}}
+	switch r.Intn(4) {
+	case 0:
+		ov.Overrides[tg] = nil
+	case 1:
+		ov.Overrides[tg] = &configapi.TargetTypeVersion{}
+	case 2:
+		ov.Overrides[tg] = &configapi.TargetTypeVersion{TargetType: configapi.TargetType(hName(r)), TargetVersion: configapi.TargetVersion(hName(r))}
+	case 3:
+		ov.Overrides[tg] = &configapi.TargetTypeVersion{TargetType: "synth", TargetVersion: "1.0.0"}
+	}
+	if r.Chance(1, 4) {
+		ov.Overrides[hostileTargets[r.Intn(len(hostileTargets))]] = nil
+	}
+	msg, _ := ov.Marshal()
+	return &gnmi_ext.Extension{Ext: &gnmi_ext.Extension_RegisteredExt{RegisteredExt: &gnmi_ext.RegisteredExtension{Id: configapi.TargetVersionOverridesID, Msg: msg}}}
+}
+
 func hExtensions(r *fw.Rng) []*gnmi_ext.Extension {
 	var out []*gnmi_ext.Extension
 	for i := r.Intn(3); i > 0 && r.Chance(1, 2); i-- {
@@ -227,6 +250,9 @@ func hSetRequest(r *fw.Rng) *gnmi.SetRequest {
 		if r.Chance(1, 4) {
 			req.Extension = hExtensions(r)
 		}
+		if r.Chance(1, 4) {
+			req.Extension = append(req.Extension, hOverrideFor(r, tg))
+		}
 		if r.Chance(1, 6) {
 			req.Delete = append(req.Delete, &gnmi.Path{Target: tg})
 		}
@@ -275,6 +301,9 @@ func hGetRequest(r *fw.Rng) *gnmi.GetRequest {
 		}
 		if r.Chance(1, 6) {
 			req.Extension = hExtensions(r)
+		}
+		if r.Chance(1, 4) {
+			req.Extension = append(req.Extension, hOverrideFor(r, tg))
 		}
 		return req
 	}
